@@ -1574,9 +1574,17 @@ func (x *Exec) checkFrame(st *State) {
 	ghostOK := map[string]bool{}
 	envp := &SEnv{x: x, st: x.entry, binds: map[string]Val{}, pkg: x.fn.pkgPath(), own: true, pos: x.fn.decl.Body.Lbrace + 1, entryParams: true}
 	scratch := x.entry.fork()
+	// the frame obligations carry the tags written on the modifies clauses ("modifies [C17] ...":
+	// property C17 rests on this function leaving everything else alone)
+	frameTags := []string{"*"}
 	for _, c := range x.spec.Clauses {
 		if c.Kind != "modifies" {
 			continue
+		}
+		for _, tg := range c.Tags {
+			if tg != "*" && !hasTag(frameTags, tg) {
+				frameTags = append(frameTags, tg)
+			}
 		}
 		for _, t := range c.Exprs {
 			switch {
@@ -1638,7 +1646,7 @@ func (x *Exec) checkFrame(st *State) {
 			}
 			x.declare(init, cur.S)
 			if !ghostOK[name] {
-				x.oblige(st, "frame", "frame:"+name, []string{"*"}, app("=", cur.T, init))
+				x.oblige(st, "frame", "frame:"+name, frameTags, app("=", cur.T, init))
 			}
 			continue
 		}
@@ -1664,7 +1672,7 @@ func (x *Exec) checkFrame(st *State) {
 			goals = append(goals, implies(w.guard, or(alts...)))
 		}
 		if len(goals) > 0 {
-			x.oblige(st, "frame", "frame:"+name, []string{"*"}, and(goals...))
+			x.oblige(st, "frame", "frame:"+name, frameTags, and(goals...))
 		}
 	}
 }
